@@ -119,20 +119,32 @@ pub(crate) mod verif_e {
         let ok = idx == count && (count == 0 || (ts == ts2 && same_hash)) && !block_known;
         assert!(r.is_ok() == ok);
         assert!(e.db.verif_lock_writes() == 0 && e.last_block_info.verif_lock_writes() == 0);
-        kani::cover!(r.is_ok());
+        if known != 1 {
+            // (with the number known no call is accepted: nothing to witness there)
+            kani::cover!(r.is_ok());
+        }
         kani::cover!(r.is_err() && idx == count);
         core::mem::forget(r);
         core::mem::forget(e);
     }
+    /// Stub for `alloc::fmt::format`: the error messages of the block-exists guard are built with
+    /// `format!`; measured: without the stub these three harnesses do not finish in 900 s, with it
+    /// they take 30-60 s.
+    pub fn format_stub(_args: std::fmt::Arguments<'_>) -> String {
+        String::new()
+    }
     #[kani::proof]
+    #[kani::stub(alloc::fmt::format, format_stub)]
     fn e3_validate_next_tx_unknown_block() {
         validate_case(0);
     }
     #[kani::proof]
+    #[kani::stub(alloc::fmt::format, format_stub)]
     fn e3_validate_next_tx_known_number() {
         validate_case(1);
     }
     #[kani::proof]
+    #[kani::stub(alloc::fmt::format, format_stub)]
     fn e3_validate_next_tx_known_hash() {
         validate_case(2);
     }
